@@ -392,9 +392,6 @@ func (p *prover) classifyCond(cond ssa.Value, holds bool) []guard {
 			return nil // err == nil says nothing about the field being set
 		}
 		refs := p.prov(val).list()
-		if len(refs) == 0 {
-			return nil
-		}
 		zero := isNil || isZeroConst(k)
 		one := k != nil && k.Kind() == constant.Int && constant.Compare(k, token.EQL, constant.MakeInt64(1))
 		g := guard{cond: cond, refs: refs, desc: fmt.Sprintf("%s %s %s", shortVal(val), op, constStr(k))}
